@@ -529,6 +529,18 @@ Definition h_metric (s : state) (m : metric) (o1 o2 : obj) : state * result out 
   | _, _ => (s, Raises EBits)
   end.
 
+(* --- pickle.loads(pickle.dumps(db)) / copy.deepcopy(db): __getstate__ / __setstate__, everything new *)
+Definition h_pickle (s : state) (ob : obj) : state * result out :=
+  match dbits (view (bufs s) ob) with
+  | Some b =>
+    let '(bs1, c) := alloc_csr (bufs s) (drows (view (bufs s) ob)) b in
+    let '(bs2, ps) := alloc_cols bs1 (dprops (view (bufs s) ob)) in
+    (push_obj s bs2 (mkobj (okind ob) (olevel ob) (Some c) (onames ob) (names_map [] (onames ob) 0) ps), Ok (ONew (new_handle s)))
+  | None =>
+    let '(bs2, ps) := alloc_cols (bufs s) (dprops (view (bufs s) ob)) in
+    (push_obj s bs2 (mkobj (okind ob) (olevel ob) None (onames ob) (names_map [] (onames ob) 0) ps), Ok (ONew (new_handle s)))
+  end.
+
 Definition step (s : state) (o : op) : state * result out :=
   match o with
   | OpNew k lv => (push_obj s (bufs s) (mkobj k lv None [] [] []), Ok (ONew (new_handle s)))
@@ -540,15 +552,7 @@ Definition step (s : state) (o : op) : state * result out :=
   | OpAsType h k copy => match lookup s h with Some (oid, ob) => h_astype s oid ob k copy | None => (s, Raises EOther) end
   | OpCopy h => match lookup s h with Some (oid, ob) => h_astype s oid ob (okind ob) true | None => (s, Raises EOther) end
   | OpFold h nb ko => match lookup s h with Some (oid, ob) => h_fold s oid ob nb ko | None => (s, Raises EOther) end
-  | OpPickle h => match lookup s h with
-                  | Some (oid, ob) =>
-                    let d := view (bufs s) ob in
-                    let '(bs1, oarr') := match dbits d with
-                                         | Some b => let '(bs1, c) := alloc_csr (bufs s) (drows d) b in (bs1, Some c)
-                                         | None => (bufs s, None) end in
-                    let '(bs2, ps) := alloc_cols bs1 (dprops d) in
-                    (push_obj s bs2 (mkobj (okind ob) (olevel ob) oarr' (onames ob) (names_map [] (onames ob) 0) ps), Ok (ONew (new_handle s)))
-                  | None => (s, Raises EOther) end
+  | OpPickle h => match lookup s h with Some (_, ob) => h_pickle s ob | None => (s, Raises EOther) end
   | OpConcat hs => match lookup_all s hs with Some os => h_concat s os | None => (s, Raises EOther) end
   | OpGetInt h i => match lookup s h with Some (_, ob) => (s, get_int (view (bufs s) ob) i) | None => (s, Raises EOther) end
   | OpGetName h nm => match lookup s h with Some (oid, ob) => h_getname s oid ob nm | None => (s, Raises EOther) end
